@@ -69,23 +69,24 @@ type pathState struct {
 	inconclusive    []string
 
 	// virtual environment
-	vfs        []vfile
-	fileOrder  []string
-	writes     []fsWrite
-	stdout     []value // string values
-	stderr     []string
-	goPanic    bool
-	reads      []value
-	outputs    []string
-	outTexts   []string
-	sample     *PathSample
-	exitCode   int
-	exited     bool
-	osArgs     []value
-	failRead   map[string]bool
-	failWrite  map[string]bool
-	oracle     Oracles
-	iterEvents int
+	vfs         []vfile
+	fileOrder   []string
+	writes      []fsWrite
+	stdout      []value // string values
+	stderr      []string
+	goPanic     bool
+	reads       []value
+	outputs     []string
+	outTexts    []string
+	overridesOn bool
+	sample      *PathSample
+	exitCode    int
+	exited      bool
+	osArgs      []value
+	failRead    map[string]bool
+	failWrite   map[string]bool
+	oracle      Oracles
+	iterEvents  int
 }
 
 type fsWrite struct {
